@@ -128,6 +128,11 @@ class SigGen:
             self.feat.add('agg:padding-eightbyte')
             mt, kind = ch.choice([('int', 'i'), ('float', 'f'), ('long', 'i'), ('double', 'f'), ('char', 'i')])
             return P('struct %s' % tag, 'struct %s { _Alignas(16) %s m0; };' % (tag, mt), [('.m0', kind, mt, None)], 'agg')
+        if special == 3 and ch.bool():
+            # an empty aggregate (GNU): nothing is passed and no room is left for it, whatever its alignment
+            self.feat.add('agg:empty')
+            al = ch.choice(['', '_Alignas(16) ', '_Alignas(8) '])
+            return P('struct %s' % tag, 'struct %s { %sint z[0]; };' % (tag, al), [], 'agg')
         packed = special == 1
         if packed:
             self.feat.add('agg:packed')
